@@ -443,6 +443,14 @@ def run(ctx):
                 pre = st
                 st, impl = one(batch, real, mask, pre, adv, pdu, "history")
                 note(real, mask, pre, adv, pdu, "history:" + ("all-on" if mask == ALL_ON else "subset") + ":" + out_kind(impl))
+                if st[0] != pre[0]:
+                    ctx.kind("event:session-changed")
+                if st[1] is not None and st[1] != pre[1]:
+                    ctx.kind("event:unlocked")
+                if pre[1] is not None and st[1] is None:
+                    ctx.kind("event:relocked")
+                if out_kind(impl) == "silent" and st != pre:
+                    ctx.kind("event:suppressed-positive-with-state-change")
                 if impl.startswith("crash") and st[0] not in real.server.services:
                     st = (1, None, None)  # the ECU is stuck in a session it does not offer; start over
                 if mask == ALL_ON and st not in states and len(states) < 64:
@@ -453,12 +461,23 @@ def run(ctx):
     ctx.notes["states_reached"] = sum(len(v) for v in reached.values())
 
     # 2. exhaustive short requests, all switches on: every service id alone, every service id with every second byte
-    n_sweep_models = ctx.pick(3, len(reals))
-    sweep_states = ctx.pick(2, 5)
+    def pick_states(sts, k):
+        """the initial state plus up to k-1 reached states, one per (seed pending, unlocked, non-default session) class first"""
+        chosen = [sts[0]]
+        classes = {}
+        for st in sts[1:]:
+            classes.setdefault((st[2] is not None, st[1] is not None, st[0] != 1), []).append(st)
+        order = sorted(classes, key=lambda c: (-sum(c), c))
+        while len(chosen) < k and any(classes.values()):
+            for c in order:
+                if classes[c] and len(chosen) < k:
+                    chosen.append(classes[c].pop(rng.randrange(len(classes[c]))))
+        return chosen
+
+    n_sweep_models = ctx.pick(3, 8)
+    sweep_states = ctx.pick(2, 4)
     for real in reals[:n_sweep_models]:
-        sts = reached[id(real)]
-        pick = [sts[0]] + rng.sample(sts[1:], min(len(sts) - 1, sweep_states - 1))
-        for pre in pick:
+        for pre in pick_states(reached[id(real)], sweep_states):
             for sid in range(256):
                 p = bytes([sid])
                 one(batch, real, ALL_ON, pre, 1, p, "sweep-1")
@@ -470,6 +489,24 @@ def run(ctx):
             batch.flush()
     ctx.exhaustive_parts.append(f"all 256 one-byte and all 65536 two-byte requests, all switches on, on {n_sweep_models} models x "
                                 f"up to {sweep_states} reached states each")
+    # the other models: every one-byte request; every second byte for the services the ECU knows, the sub-function
+    # services and a few unknown ones
+    for real in reals[n_sweep_models:]:
+        ka = {int(k) for d in real.server.services.values() for k in d}
+        sids = sorted(ka | SUBFN | {rng.randrange(256) for _ in range(6)})
+        for pre in pick_states(reached[id(real)], 3):
+            for sid in range(256):
+                p = bytes([sid])
+                one(batch, real, ALL_ON, pre, 1, p, "sweep-1")
+                note(real, ALL_ON, pre, False, p, "sweep:1-byte")
+            for sid in sids:
+                for b in range(256):
+                    p = bytes([sid, b])
+                    one(batch, real, ALL_ON, pre, 1, p, "sweep-2-known")
+                    note(real, ALL_ON, pre, False, p, "sweep:2-byte-known-services")
+            batch.flush()
+    ctx.exhaustive_parts.append("on the remaining models: all one-byte requests and all 256 second bytes for every service the "
+                                "ECU knows, every sub-function service and 6 random others, in up to 3 reached states")
 
     # 3. three-byte requests: every service id x sampled payloads (incl. the suppress bit and listed sub-functions)
     for real in reals:
@@ -507,7 +544,7 @@ def run(ctx):
         targets = [real] if real is not None else reals[:n_mask_models]
         for real in targets:
             sts = reached[id(real)]
-            pre = sts[0] if mi % 2 == 0 or len(sts) == 1 else rng.choice(sts[1:])
+            pre = sts[0] if mi % 2 == 0 or len(sts) == 1 else rng.choice(pick_states(sts, 4)[1:] or sts)
             full = (mask == ALL_ON) or not ctx.quick or mi % 4 == 0
             reqs = reduced(real, pre) if full else reduced(real, pre)[256::3] + [bytes([s]) for s in sorted(SUBFN)]
             for p in reqs:
